@@ -171,15 +171,14 @@ func (r *Run) c02ErrorExits() {
 				n++
 				sized := false
 				for _, g := range Guards(definingBlock(v, b)) {
-					// wrapping the error of something that failed: made under `err != nil`
-					if bo, isB := g.Cond.(*ssa.BinOp); isB && bo.Op == token.NEQ && g.True {
-						if k, isK := bo.Y.(*ssa.Const); isK && k.Value == nil && bo.X.Type().String() == "error" {
-							sized = true
-						}
+					// wrapping the error of something that failed: made under `err != nil` (any spelling: nil != err, !(err == nil), ...)
+					if GuardNilness(g, func(x ssa.Value) bool { return x.Type().String() == "error" }) == -1 {
+						sized = true
 					}
-					gt := tm.Of(g.Cond)
-					if gt.Op == "bin" && (gt.Name == "!=" || gt.Name == "==") && strings.Contains(gt.String(), ".PopSize") && strings.Contains(gt.String(), "len(") {
-						if (gt.Name == "!=") == g.True {
+					// the progeny-size check: `len(babies) != PopSize` holds (any spelling)
+					if cx, cy, op, isCmp := CmpFact(g.Cond, g.True); isCmp && op == token.NEQ {
+						tx, ty := tm.Of(cx).String(), tm.Of(cy).String()
+						if strings.Contains(tx+ty, ".PopSize") && strings.Contains(tx+ty, "len(") {
 							sized = true
 						}
 					}
